@@ -307,13 +307,15 @@ def substitute(exprs, repl):  # noqa: C901
         if expr.id and expr.id in repl:
             expr = repl.pop(expr.id)
             didrepl = True
-        if expr in repl:
+        elif expr in repl:
             expr = repl[expr]
             didrepl = True
         if didrepl:
+            # the replacement is inserted as given, it is not traversed again
             changed = True
-            if expr is None:
-                continue
+            if expr is not None:
+                args[-1].append(expr)
+            continue
 
         if visited:
             children = args.pop()
